@@ -59,7 +59,11 @@ class FlagSimpleOpWriteHandler(AbstractWriteHandler):
         op: SsbOperation = self.start_vertex["op"]
         self.decompiler.source_map_add_opcode(op.offset)
         if op.op_code.name == OPS_FLAG__CALC_BIT:
-            self.decompiler.write_stmnt(f"{op.params[0]}[{op.params[1]}] = {op.params[2]};")
+            if str(op.params[0]) == self.decompiler.performance_progress_list_var_name:
+                # `$PERFORMANCE_PROGRESS_LIST[b] = c;` would compile to flag_SetPerformance, not back to flag_CalcBit.
+                self.decompiler.write_stmnt(f'{OPS_FLAG__CALC_BIT}({", ".join([str(x) for x in op.params])});')
+            else:
+                self.decompiler.write_stmnt(f"{op.params[0]}[{op.params[1]}] = {op.params[2]};")
         elif op.op_code.name == OPS_FLAG__CALC_VALUE:
             if op.params[1] == SsbCalcOperator.ASSIGN.value:
                 # `a = b;` would compile to flag_Set, not back to flag_CalcValue.
